@@ -8,10 +8,18 @@
  * usage: c01_fuzz <seed> <first> <count> <scratchdir> <mode> <file>...
  *   mode: "san"  sanitizer search (C01)
  *         "res"  resource search (C02): prints per-case CPU time and peak heap
- * Every case is a pure function of (seed, index, file list).
+ * Every case is a pure function of (seed, index, file list): the context's rng
+ * (seeded from time() by xmp_create_context; IT random volume/pan) is pinned at
+ * the start of every case.  "done <idx> ret=<r> dig=<hex>" carries a digest of
+ * everything the case let a client read (module info, sample data, every output
+ * buffer, frame info, test info).  The check runs a slice of the cases under two
+ * different ASan allocator fill bytes and compares the digests: a difference
+ * means a result depends on uninitialised heap memory.
  */
 #include "vcommon.h"
 #include <xmp.h>
+#include "common.h"	/* private: struct context_data, for pinning the context's rng */
+#include "rng.h"
 #include <unistd.h>
 #include <signal.h>
 #include <time.h>
@@ -372,7 +380,8 @@ int main(int argc, char **argv)
 	mode = argv[5];
 	res_mode = !strcmp(mode, "res");
 	nfiles = argc - 6;
-	snprintf(path, sizeof(path), "%s/in-%d.bin", scratch, (int)getpid());
+	/* deterministic name: some loaders derive what they report from the file name */
+	snprintf(path, sizeof(path), "%s/in-%llu-%ld-%s.bin", scratch, (unsigned long long)seed, first, mode);
 
 	for (idx = first; idx < first + count; idx++) {
 		const char *src, *osrc;
@@ -385,6 +394,7 @@ int main(int argc, char **argv)
 		struct xmp_test_info ti;
 
 		vrng_seed(seed * 2654435761ULL + (uint64_t)idx);
+		sink = 0xcbf29ce484222325ULL;
 		src = argv[6 + vrng_below(nfiles)];
 		osrc = argv[6 + vrng_below(nfiles)];
 		in = read_file(src, &n);
@@ -414,6 +424,7 @@ int main(int argc, char **argv)
 			reuse = NULL;
 			c = xmp_create_context();
 		}
+		libxmp_set_random(&((struct context_data *)c)->rng, 0x5eed1234u);
 		if (vrng_chance(15))
 			xmp_set_player(c, XMP_PLAYER_SMPCTL, XMP_SMPCTL_SKIP);
 		else
@@ -484,7 +495,8 @@ int main(int argc, char **argv)
 			printf("res %ld cpu=%.4f peak=0 big=0 ret=%d size=%ld\n", idx, cpu_now() - t0, ret, mn);
 #endif
 		} else {
-			printf("done %ld ret=%d\n", idx, ret);
+			sink += (uint64_t)(int64_t)ret;
+			printf("done %ld ret=%d dig=%016llx\n", idx, ret, (unsigned long long)sink);
 		}
 		if (vrng_chance(50)) {
 			reuse = c;
